@@ -6,15 +6,20 @@
    octets and all (bits+7)/8 value octets are present.  Everything else (non-minimal new-format
    lengths, partial body lengths, bit counts that cover leading zero bits) is accepted as by dec.
 
-   dec_strict2: a copy of dec_strict with two more refusals:
+   dec_strict2: a copy of dec_strict with these further refusals:
      - FNewLen: partial body lengths (first length octet 224..254) are refused (new_len_np);
+     - FSubLen: sub_len has no partial lengths, but a first octet 224..254 opens a two-octet length of
+       8384..16319, which the encoder (Wire.sub_length = the packet rule: two octets below 8384, else
+       five) writes with FIVE octets, three more than were read: refused as well (sub_len_np);
      - FMPI: a value of 65536 significant bits is refused (possible only when the declared bit count is
        65529..65535, hence 8192 value octets, and the first value octet has its top bit set, i.e. the
        value does not fit the declared bit count; "v < 2^declared" implies the condition).
-   Proofs/Fmt_lemmas2.v shows that "re-encoding is defined and no longer than what was consumed"
-   holds for dec_strict2 and fails for dec_strict in three ways (partial lengths re-encode longer;
-   inside a two-octet-counted region the longer re-encoding overflows the count; a 65536-bit value
-   has no two-octet bit count). *)
+   So dec_strict2 refuses a first length octet 224..254 under both length rules, and nothing else about
+   lengths.  Proofs/Fmt_lemmas2.v shows that "re-encoding is defined and no longer than what was
+   consumed" holds for dec_strict2 and fails for dec_strict in three ways (partial packet lengths
+   re-encode longer, and so do subpacket lengths 8384..16319 written with two octets; inside a
+   two-octet-counted area the longer re-encoding of such subpackets overflows the count; a 65536-bit
+   value has no two-octet bit count). *)
 From Coq Require Import ZArith List Bool.
 Import ListNotations.
 Require Import PV.Lib.Bytes PV.Model.Wire PV.Model.Fmt.
@@ -56,6 +61,16 @@ Fixpoint dec_strict (fuel : nat) (f : fmt) (i : bytes) {struct fuel} : option (v
           | _ => None end
         else None
       | None => None end
+  | FSubLen a =>
+      match sub_len i with
+      | Some (l, rest) =>
+        let len := Z.to_nat l in
+        if Nat.leb len (length rest) then
+          match dec_strict fuel' a (firstn len rest) with
+          | Some (x, []) => Some (x, skipn len rest)
+          | _ => None end
+        else None
+      | None => None end
   | FMany a =>
       match i with
       | [] => Some (VL [], [])
@@ -79,6 +94,14 @@ Definition new_len_np (b : bytes) : option (Z * bytes) :=
   match parse_len b 0 with
   | Some (pl, size, false) => Some (pl, skipn size b)
   | _ => None
+  end.
+
+(* sub_len without the two-octet lengths the encoder does not write with two octets (first octet 224..254,
+   length 8384..16319) *)
+Definition sub_len_np (p : bytes) : option (Z * bytes) :=
+  match p with
+  | [] => None
+  | p0 :: _ => if (224 <=? p0) && (p0 <? 255) then None else sub_len p
   end.
 
 Fixpoint dec_strict2 (fuel : nat) (f : fmt) (i : bytes) {struct fuel} : option (value * bytes) :=
@@ -109,6 +132,16 @@ Fixpoint dec_strict2 (fuel : nat) (f : fmt) (i : bytes) {struct fuel} : option (
       else None
   | FNewLen a =>
       match new_len_np i with
+      | Some (l, rest) =>
+        let len := Z.to_nat l in
+        if Nat.leb len (length rest) then
+          match dec_strict2 fuel' a (firstn len rest) with
+          | Some (x, []) => Some (x, skipn len rest)
+          | _ => None end
+        else None
+      | None => None end
+  | FSubLen a =>
+      match sub_len_np i with
       | Some (l, rest) =>
         let len := Z.to_nat l in
         if Nat.leb len (length rest) then
